@@ -46,6 +46,14 @@ def main():
             shutil.rmtree(env["VERIF_EVID_DIR"], ignore_errors=True)
             flagged = p.returncode == 1 and "VIOLATION property=%s" % pid in p.stdout
             clause = [l for l in p.stdout.splitlines() if "failing clause" in l][:1]
+            if m.get("growth"):
+                # a change of behaviour outside the property that a growth spec describes: SPEC-DEVIATION line, exit 0, no VIOLATION
+                ok = p.returncode == 0 and "SPEC-DEVIATION:" in p.stdout and "VIOLATION" not in p.stdout
+                dev = [l for l in p.stdout.splitlines() if l.startswith("SPEC-DEVIATION:")][:1]
+                results.append((m["name"], ("CAUGHT(as spec deviation, no alarm) " + (dev[0][:120] if dev else "")) if ok else
+                                "MISSED (rc=%d) %s" % (p.returncode, p.stdout.strip().splitlines()[-1][:160] if p.stdout.strip() else "")))
+                print("%-40s %s" % results[-1], flush=True)
+                continue
             if m.get("benign"):
                 results.append((m["name"], "CAUGHT(benign stays quiet)" if p.returncode == 0 else "MISSED: FALSE ALARM on benign change: " + (clause[0][:140] if clause else "")))
                 print("%-40s %s" % results[-1], flush=True)
